@@ -528,4 +528,28 @@ func monC12(c *VCtx) {
 			}
 		}
 	}
+	// completeness: a PRIVMSG / NOTICE of a logged-in member to its channel (one target, some text) is relayed to
+	// the other members -- the server has no mode that silences a member
+	if actor != nil && actor.LoggedIn && !actor.Server && e.Type == robust.IRCFromClient && len(c.Step.Msgs) >= 0 {
+		if pm := irc.ParseMessage(vSanitize(e.Data)); pm != nil && (strings.EqualFold(pm.Command, "PRIVMSG") || strings.EqualFold(pm.Command, "NOTICE")) && len(pm.Params) >= 2 && pm.Params[1] != "" && vIsChan(pm.Params[0]) && !strings.Contains(pm.Params[0], ",") {
+			lc := string(ChanToLower(pm.Params[0]))
+			if ch := v.Chans[lc]; ch != nil {
+				if _, member := ch.Members[string(NickToLower(actor.Nick))]; member && actor.Channels[lc] {
+					want := v.members(lc, svc)
+					delete(want, actorId)
+					relayed := false
+					for _, m := range c.Step.Msgs {
+						om := irc.ParseMessage(m.Data)
+						if om != nil && strings.EqualFold(om.Command, pm.Command) && len(om.Params) > 0 && string(ChanToLower(om.Params[0])) == lc && om.Prefix != nil && NickToLower(om.Prefix.Name) == NickToLower(actor.Nick) {
+							relayed = true
+						}
+					}
+					c.Count("c12_member_messages")
+					if len(want) > 0 && !relayed {
+						c.Report("channel message of a member is not relayed to the other members ["+strings.ToUpper(pm.Command)+"]", fmt.Sprintf("entry %s: %s is a member of %s with %d other member(s), but no %s to the channel was emitted", e.String(), vid(e.Session), lc, len(want), strings.ToUpper(pm.Command)))
+					}
+				}
+			}
+		}
+	}
 }
